@@ -182,9 +182,10 @@ def plan(run):
     for k, (g, holes, st) in enumerate((((17, 6), [(9, 3), (12, 0), (16, 5), (8, 1), (3, 3)], (32, (8, 8, 16))),
                                         ((11, 10), [(9, 3), (5, 9), (4, 0), (10, 9), (6, 6), (0, 2)], (16, (4, 8, -1))),
                                         ((19, 5), [(17, 2), (18, 4), (16, 0), (1, 1)], (32, (16, 16, 4))),
-                                        ((10, 9), [(9, 8), (8, 0), (4, 4)], (16, (8, 8, -1))))):
+                                        ((10, 9), [(9, 8), (8, 0), (4, 4)], (16, (8, 8, -1))),
+                                        ((8, 16), [(7, 15), (3, 3), (0, 8)], (16, None)))):       # grid arrays of exactly one 512-byte page
         cells = [[i, x] for i in range(g[0]) for x in range(g[1]) if (i, x) not in holes]
-        cases.append({'grid': list(g), 'cells': cells, 'axes': [5 + k, 3, -4, 2], 'nz': (20, 40, 9, 33)[k], 'mode': MODES[k % 3],
+        cases.append({'grid': list(g), 'cells': cells, 'axes': [5 + k, 3, -4, 2], 'nz': (20, 40, 9, 33, 12)[k], 'mode': MODES[k % 3],
                       'setting': list(st), 'zero_inline': False})
     # known finding D22: an inline numbered 0 is indistinguishable from a hole
     cases.append({'grid': [3, 3], 'cells': [[0, 0], [0, 1], [1, 1], [1, 2], [2, 0], [2, 2]], 'axes': [0, 2, 5, 1], 'nz': 6, 'mode': 'heuristic',
